@@ -34,6 +34,13 @@ typedef struct {
 } lzma_coder;
 
 
+#ifdef TUKAANI_PROJECT_XZ_VERIF
+/// Verification hook (see lz_encoder_init()); zero means no effect.
+extern uint32_t lzma_verif_mf_offset_bias;
+uint32_t lzma_verif_mf_offset_bias = 0;
+#endif
+
+
 /// \brief      Moves the data in the input window to free space for new data
 ///
 /// mf->buffer is a sliding input window, which keeps mf->keep_size_before
@@ -393,6 +400,13 @@ lz_encoder_init(lzma_mf *mf, const lzma_allocator *allocator,
 	// that match finder needs to be normalized more often, which may
 	// hurt performance with huge dictionaries.
 	mf->offset = mf->cyclic_size;
+#ifdef TUKAANI_PROJECT_XZ_VERIF
+	// Verification hook: start the position counter closer to
+	// UINT32_MAX so that normalize() is reached without 4 GiB of input.
+	// The harness keeps the bias <= UINT32_MAX - 2 * cyclic_size.
+	if (lzma_verif_mf_offset_bias <= UINT32_MAX - mf->cyclic_size)
+		mf->offset += lzma_verif_mf_offset_bias;
+#endif
 	mf->read_pos = 0;
 	mf->read_ahead = 0;
 	mf->read_limit = 0;
